@@ -14,7 +14,7 @@
    Also, for EVERY position (no hypothesis): legal_moves = captures ++ non-captures; the vector overloads append;
    count_moves is the length; is_legal m <-> membership; labels and capture/non-capture types of emitted moves. *)
 From Coq Require Import NArith List Bool.
-From LC Require Import Bits Types BitboardModel MoveModel PositionModel MovegenModel MakeFacts MovegenFacts Spec.Rules Refine.Abs Refine.MakeAbs KingFacts LegalFacts MakeModel LegalFinal.
+From LC Require Import Bits Types BitboardModel MoveModel PositionModel MovegenModel MakeFacts MovegenFacts Spec.Rules Spec.Fen Spec.Game Refine.Abs Refine.MakeAbs KingFacts LegalFacts MakeModel FenModel GameModel ZobristModel LegalFinal FenRoundTrip ValidExact Capstone.
 Import ListNotations.
 Local Open Scope N_scope.
 
@@ -36,6 +36,41 @@ Theorem C01_domain_closed : forall K dfrc p m, wf p = true -> rooks_ok p -> lega
   wf (makemove K p m) = true /\ rooks_ok (makemove K p m) /\ legal_consistent dfrc (abs (makemove K p m)) = true /\
   abs (makemove K p m) = apply_move (abs p) m.
 Proof. exact domain_closed. Qed.
+
+(* END TO END (Capstone.v): no hypothesis about the model is left.  Load ANY well-formed six-field FEN whose position —
+   as the specification's own decoder reads it — is legal-consistent; then at EVERY point of EVERY history of generated
+   moves, null moves (out of check) and undos the library's answers are the rules' answers: the move list, perft at every
+   depth, hash, valid(), parse_move, is_legal, check / mate / stalemate, the FEN round trip, and each step is the rules'
+   step (shist: the specification reaches abs p by the same operations). *)
+Theorem C01_end_to_end : forall K dfrc ranks T C E H F s0,
+  length ranks = 8%nat -> Forall rank_ok ranks -> T <> [] -> vis T -> C <> [] -> vis C -> ep_word_ok E ->
+  digits H -> H <> [] -> digits F -> F <> [] ->
+  let fen := join 32 [join 47 ranks; T; C; E; H; F] in
+  of_fen dfrc fen = Some s0 -> legal_consistent dfrc s0 = true ->
+  let p0 := set_fen K fen dfrc in
+  abs p0 = s0 /\ history p0 = [] /\
+  forall p st, hist K p0 p st ->
+    (NoDup (legal_moves p) /\ (forall m, In m (legal_moves p) <-> In m (spec_moves (abs p)))) /\
+    (forall d, fst (perft K d p) = spec_perft d (abs p) /\ snd (perft K d p) = p) /\
+    hash p = calculate_hash K p /\ valid K p = true /\
+    (forall m, In m (legal_moves p) -> parse_move p (move_text m) = Some m) /\
+    (forall m, is_legal p m = spec_legal (abs p) m) /\
+    in_check p = spec_in_check (abs p) /\
+    is_checkmate p = spec_checkmate (abs p) /\ is_stalemate p = spec_stalemate (abs p) /\
+    (let q := set_fen K (get_fen p dfrc) dfrc in abs q = abs p /\ get_fen q dfrc = get_fen p dfrc) /\
+    (forall m, In m (legal_moves p) -> abs (makemove K p m) = apply_move (abs p) m /\ undomove (makemove K p m) = p) /\
+    (in_check p = false -> abs (makenull K p) = apply_null (abs p) /\ undonull (makenull K p) = p) /\
+    legal_consistent dfrc (abs p) = true /\ shist s0 (abs p) (map (fun x => abs (fst x)) st) /\ length (history p) = length st.
+Proof. exact end_to_end. Qed.
+(* the standard start position (and the keyword "startpos") is such a start, for any keys and either mode; and from it the
+   library's perft is 20, 400, 8902 *)
+Theorem C01_startpos_in_domain : forall K d, let p := set_fen K startpos_fen false in
+  dom K d p /\ history p = [] /\ abs p = start_spos /\ valid K p = true.
+Proof. exact startpos_in_domain. Qed.
+Theorem C01_startpos_perft : forall K, let p0 := set_fen K startpos_fen false in
+  fst (perft K 1 p0) = 20 /\ fst (perft K 2 p0) = 400 /\ fst (perft K 3 p0) = 8902.
+Proof. exact startpos_perft. Qed.
+Print Assumptions C01_end_to_end. Print Assumptions C01_startpos_in_domain. Print Assumptions C01_startpos_perft.
 
 Theorem C01_split : forall p, legal_moves p = legal_captures p ++ legal_noncaptures p.
 Proof. exact legal_moves_split. Qed.
